@@ -1,9 +1,15 @@
 import Glom.Spec.C04
 /-
-  Helper lemmas for C04: what `WF` pins down, the MRO of the wrapper class,
-  the case analysis of `glom()`'s handler, propagation through plain frames.
+  Helper lemmas for C04: what `WF` pins down, the C3 merge and the MRO of the wrapper class,
+  the case analysis of `glom()`'s handler, propagation through plain frames, nesting levels.
 -/
 namespace Glom.C04
+
+/-! ### what `WF` pins down -/
+
+theorem WF_eq {F : Facts} (h : WF F = true) : F = docFacts F.wrapTypeInTry F.attrGuarded := by
+  unfold WF at h
+  exact eq_of_beq h
 
 structure WFParts (F : Facts) : Prop where
   defIfSkip : F.defIfSkip = some .none_
@@ -20,11 +26,34 @@ structure WFParts (F : Facts) : Prop where
   tmeCopy : F.tmeCopyFixed = false
   frameCatch : F.frameCatch = ["Exception"]
   coalesceSkip : F.coalesceSkipDefault = ["GlomError"]
+  iterCatch : F.iterCatch = ["Exception"]
+  iterRaises : F.iterRaises = "TypeError"
+  getitemCatch : F.getitemCatch = ["KeyError", "IndexError", "TypeError", "ValueError"]
+  getattrCatch : F.getattrCatch = ["AttributeError"]
+  pathCatch : F.pathCatch = ["Exception"]
 
 theorem WF_parts {F : Facts} (h : WF F = true) : WFParts F := by
-  simp only [WF, Bool.and_eq_true, beq_iff_eq, Bool.not_eq_true'] at h
-  obtain ⟨⟨⟨⟨⟨⟨⟨⟨⟨⟨⟨⟨⟨⟨_, h1⟩, h2⟩, h3⟩, h4⟩, h5⟩, h6⟩, h7⟩, h8⟩, h9⟩, h10⟩, h11⟩, h12⟩, h13⟩, h14⟩ := h
-  exact ⟨h1, h2, h3, h4, h5, h6, h7, h8, h9, h10, h11, h12, h13, h14⟩
+  have e := WF_eq h
+  exact
+    { defIfSkip := congrArg Facts.defIfSkip e
+      defElse := congrArg Facts.defElse e
+      skipIfMissing := congrArg Facts.skipIfMissing e
+      skipElse := congrArg Facts.skipElse e
+      debugDefault := congrArg Facts.debugDefault e
+      outerCatch := congrArg Facts.outerCatch e
+      copyArgsCheck := congrArg Facts.copyArgsCheck e
+      copyFallback := congrArg Facts.copyFallback e
+      wrapArgsCheck := congrArg Facts.wrapArgsCheck e
+      wrapFallback := congrArg Facts.wrapFallback e
+      errTest := congrArg Facts.errTestTruthy e
+      tmeCopy := congrArg Facts.tmeCopyFixed e
+      frameCatch := congrArg Facts.frameCatch e
+      coalesceSkip := congrArg Facts.coalesceSkipDefault e
+      iterCatch := congrArg Facts.iterCatch e
+      iterRaises := congrArg Facts.iterRaises e
+      getitemCatch := congrArg Facts.getitemCatch e
+      getattrCatch := congrArg Facts.getattrCatch e
+      pathCatch := congrArg Facts.pathCatch e }
 
 /-! ### effective settings = documented settings -/
 
@@ -41,337 +70,281 @@ theorem effSkip_eq_ref {F : Facts} (w : WFParts F) (s : Settings) : effSkip F s 
 theorem effDebug_eq {F : Facts} (w : WFParts F) (s : Settings) : effDebug F s = s.debug.getD false := by
   unfold effDebug; rw [w.debugDefault]
 
-/-! ### class chains -/
+/-! ### the C3 merge -/
 
-theorem isInst_self (e : ExcObj) : isInst e e.cls.name = true := by
-  simp [isInst, ClassInfo.mro]
+theorem mem_dropHead {h x : String} {l : List String} (hx : x ∈ l) : x = h ∨ x ∈ dropHead h l := by
+  cases l with
+  | nil => cases hx
+  | cons a t =>
+    by_cases ha : (a == h) = true
+    · simp only [dropHead, ha, if_true]
+      rcases List.mem_cons.mp hx with rfl | hx
+      · exact Or.inl (eq_of_beq ha)
+      · exact Or.inr hx
+    · simp only [dropHead, ha]; exact Or.inr hx
 
-theorem mem_insertGlom {x : String} {l : List String} (h : x ∈ l) : x ∈ insertGlom l := by
-  induction l with
-  | nil => cases h
-  | cons c r ih =>
-    unfold insertGlom
-    split
-    · simp only [List.mem_cons] at h ⊢; rcases h with h | h <;> simp [h]
-    · split
-      · simp only [List.mem_cons] at h ⊢; rcases h with h | h <;> simp [h]
-      · simp only [List.mem_cons] at h ⊢
-        rcases h with h | h
-        · exact Or.inl h
-        · exact Or.inr (ih h)
+theorem all_isEmpty_no_mem {ls : List (List String)} (h : ls.all List.isEmpty = true)
+    {l : List String} (hl : l ∈ ls) {x : String} (hx : x ∈ l) : False := by
+  have := List.all_eq_true.mp h l hl
+  cases l with
+  | nil => cases hx
+  | cons a t => simp at this
 
-theorem glom_mem_insertGlom (l : List String) : "GlomError" ∈ insertGlom l := by
-  induction l with
-  | nil => simp [insertGlom, glomMro]
-  | cons c r ih =>
-    unfold insertGlom
-    split
-    · simp
-    · split
-      · simp
-      · simp [ih]
-
-theorem wrapClass_has_orig (c : ClassInfo) : (wrapClass c).mro.contains c.name = true := by
-  unfold wrapClass
-  split
-  · rename_i h; simp only [ClassInfo.mro, List.contains_cons, h, Bool.or_true]
-  · simp only [ClassInfo.mro, List.contains_cons, Bool.or_eq_true, List.contains_iff_mem]
-    exact Or.inr (mem_insertGlom (by simp))
-
-theorem wrapClass_has_glom (c : ClassInfo) : (wrapClass c).mro.contains "GlomError" = true := by
-  unfold wrapClass
-  split
-  · simp [ClassInfo.mro, glomMro]
-  · simp only [ClassInfo.mro, List.contains_cons, Bool.or_eq_true, List.contains_iff_mem]
-    exact Or.inr (glom_mem_insertGlom _)
-
-/-- an exception that may leave `glom()` in place of `e`: an instance of `e`'s class with `e`'s args -/
-def Faithful (e out : ExcObj) : Prop := isInst out e.cls.name = true ∧ out.args = e.args
-
-theorem Faithful.refl (e : ExcObj) : Faithful e e := ⟨isInst_self e, rfl⟩
-
-/-! ### `GlomError.wrap` and `copy.copy` under the guards -/
-
-theorem wrap_cases {F : Facts} (w : WFParts F) (e : ExcObj) :
-    wrap F e = .ok e ∨
-    ∃ a, (wrapClass e.cls).ctor e.args = some a ∧ a = e.args ∧
-      wrap F e = .ok { id := e.id + 1, cls := wrapClass e.cls, args := a } := by
-  unfold wrap
-  simp only [w.wrapArgsCheck, w.wrapFallback, Bool.true_and, if_true]
-  cases h : (wrapClass e.cls).ctor e.args with
-  | none => simp
-  | some a =>
-    by_cases ha : a = e.args
-    · right; exact ⟨a, rfl, ha, by simp [ha]⟩
-    · left; simp [ha]
-
-theorem pyCopy_cls {F : Facts} (w : WFParts F) {e c : ExcObj} (h : pyCopy F e = some c) :
-    c.cls = e.cls := by
-  unfold pyCopy at h
-  simp only [w.tmeCopy] at h
-  split at h
-  · split at h
-    · simp only [Bool.false_eq_true, if_false, Option.map_eq_some_iff] at h
-      obtain ⟨a, _, rfl⟩ := h; rfl
+/-- **soundness of the merge**: every class of every input list is in the result -/
+theorem c3merge_sound : ∀ (n : Nat) (ls : List (List String)) (r : List String),
+    c3merge n ls = some r → ∀ l ∈ ls, ∀ x ∈ l, x ∈ r := by
+  intro n
+  induction n with
+  | zero =>
+    intro ls r h l hl x hx
+    unfold c3merge at h
+    split at h
+    · rename_i he; exact (all_isEmpty_no_mem he hl hx).elim
     · cases h
-  · simp only [Option.map_eq_some_iff] at h
-    obtain ⟨a, _, rfl⟩ := h; rfl
+  | succ n ih =>
+    intro ls r h l hl x hx
+    unfold c3merge at h
+    split at h
+    · rename_i he; exact (all_isEmpty_no_mem he hl hx).elim
+    · split at h
+      · cases h
+      · rename_i hd _
+        cases hm : c3merge n (ls.map (dropHead hd)) with
+        | none => rw [hm] at h; cases h
+        | some r' =>
+          rw [hm] at h
+          simp only [Option.map_some, Option.some.injEq] at h
+          subst h
+          rcases mem_dropHead (h := hd) hx with rfl | hx'
+          · exact List.mem_cons_self
+          · exact List.mem_cons_of_mem _ (ih _ _ hm _ (List.mem_map_of_mem hl) _ hx')
 
-/-- the `err` of the GlomError branch: the copy when it has the same args, else the original -/
-theorem copy_branch_faithful {F : Facts} (w : WFParts F) (e : ExcObj) :
-    ∃ err, copyBranch F e = .ok err ∧ err.cls = e.cls ∧ err.args = e.args := by
-  unfold copyBranch
-  simp only [w.copyArgsCheck, w.copyFallback, Bool.true_and, if_true]
-  cases h : pyCopy F e with
-  | none => exact ⟨e, rfl, rfl, rfl⟩
-  | some c =>
-    by_cases ha : c.args = e.args
-    · exact ⟨c, by simp [ha], pyCopy_cls w h, ha⟩
-    · exact ⟨e, by simp [ha], rfl, rfl⟩
+theorem pickHead_skip_nil (ls rest : List (List String)) : pickHead ls ([] :: rest) = pickHead ls rest := rfl
 
-/-! ### the handler -/
+theorem pickHead_free {ls rest : List (List String)} {h : String} {t : List String}
+    (hf : inTail ls h = false) : pickHead ls ((h :: t) :: rest) = some h := by
+  simp [pickHead, hf]
 
-/-- with `glom_debug` on, the handler re-raises the object it caught -/
-theorem handler_debug {F : Facts} (s : Settings) (e : ExcObj) (hd : effDebug F s = true) :
-    handler F s e = .exc e := by
-  unfold handler; simp [hd]
+theorem pickHead_blocked {ls rest : List (List String)} {h : String} {t : List String}
+    (hf : inTail ls h = true) : pickHead ls ((h :: t) :: rest) = pickHead ls rest := by
+  simp [pickHead, hf]
 
-/-- with `glom_debug` off, the handler raises a faithful exception; it is a GlomError
-    whenever `e` is one or can be rebuilt from its args -/
-theorem handler_nodebug {F : Facts} (w : WFParts F) (s : Settings) (e : ExcObj)
-    (hd : effDebug F s = false) :
-    ∃ out, handler F s e = .exc out ∧ Faithful e out ∧
-      ((isInst e "GlomError" || rebuildable e) = true → isInst out "GlomError" = true) := by
-  unfold handler
-  simp only [hd, Bool.false_eq_true, if_false, w.errTest, Bool.false_and]
-  by_cases hg : isInst e "GlomError" = true
-  · simp only [hg, if_true]
-    obtain ⟨err, herr, hcls, hargs⟩ := copy_branch_faithful w e
-    rw [herr]
-    have hig : isInst err "GlomError" = true := by
-      simpa [isInst, hcls] using hg
-    simp only [hig, if_true]
-    refine ⟨err, rfl, ⟨?_, hargs⟩, fun _ => hig⟩
-    simp [isInst, hcls, ClassInfo.mro]
-  · simp only [hg, Bool.false_eq_true, if_false]
-    rcases wrap_cases w e with h | ⟨a, hc, ha, h⟩
-    · rw [h]
-      simp only [hg, Bool.false_eq_true, if_false]
-      refine ⟨e, rfl, Faithful.refl e, ?_⟩
-      intro hr
-      simp only [Bool.false_or] at hr
-      -- rebuildable, yet `wrap` returned the original: impossible
-      exfalso
-      unfold wrap at h
-      simp only [w.wrapArgsCheck, w.wrapFallback, Bool.true_and, if_true] at h
-      have hctor : (wrapClass e.cls).ctor e.args = some e.args := by
-        unfold wrapClass
-        split
-        · rfl
-        · simpa [rebuildable] using hr
-      rw [hctor] at h
-      simp only [bne_self_eq_false, Bool.false_eq_true, if_false, Built.ok.injEq] at h
-      have := congrArg ExcObj.id h
-      simp at this
-    · rw [h]
-      have hig : isInst { id := e.id + 1, cls := wrapClass e.cls, args := a : ExcObj } "GlomError" = true :=
-        wrapClass_has_glom e.cls
-      simp only [hig, if_true]
-      exact ⟨_, rfl, ⟨wrapClass_has_orig e.cls, ha⟩, fun _ => hig⟩
+theorem c3merge_step {n : Nat} {ls : List (List String)} {h : String}
+    (hne : ls.all List.isEmpty = false) (hp : pickHead ls ls = some h) :
+    c3merge (n + 1) ls = (c3merge n (ls.map (dropHead h))).map (h :: ·) := by
+  rw [c3merge]
+  simp [hne, hp]
 
-/-- in every case the handler raises a faithful exception -/
-theorem handler_faithful {F : Facts} (w : WFParts F) (s : Settings) (e : ExcObj) :
-    ∃ out, handler F s e = .exc out ∧ Faithful e out := by
-  cases hd : effDebug F s with
-  | true => exact ⟨e, handler_debug s e hd, Faithful.refl e⟩
-  | false =>
-    obtain ⟨out, h, hf, _⟩ := handler_nodebug w s e hd
-    exact ⟨out, h, hf⟩
+theorem dropHead_cons_self (h : String) (t : List String) : dropHead h (h :: t) = t := by
+  simp [dropHead]
 
-theorem outer_faithful {F : Facts} (w : WFParts F) (s : Settings) (e : ExcObj) :
-    ∃ out, outer F s e = .exc out ∧ Faithful e out := by
-  unfold outer
-  split
-  · exact handler_faithful w s e
-  · exact ⟨e, rfl, Faithful.refl e⟩
+theorem dropHead_cons_ne {h a : String} (t : List String) (hne : a ≠ h) : dropHead h (a :: t) = a :: t := by
+  simp [dropHead, hne]
 
-/-- `glom()` either returns the default — exactly when the caller selected this error — or
-    lets the outer handler decide -/
-theorem glomTop_cases {F : Facts} (w : WFParts F) (s : Settings) (e : ExcObj) :
-    (selected s e = true ∧ ∃ d, refDefault s = some d ∧ glomTop F s (.exc e) = .dflt d) ∨
-    (selected s e = false ∧ glomTop F s (.exc e) = outer F s e) := by
-  unfold glomTop selected
-  simp only [effSkip_eq_ref w, effDefault_eq_ref w]
-  cases hm : matchesAny e (refSkip s) with
-  | false => right; simp
-  | true =>
-    cases hd : refDefault s with
-    | none => right; simp
-    | some d => left; simp
-
-/-! ### frames -/
-
-theorem frameG_id (E : EvalEnv) (o : Outc) : frameG E o = o := by
-  unfold frameG
-  cases o with
-  | val => rfl
-  | exc x => simp
-
-theorem evalSeq_append_exc (E : EvalEnv) (pre post : List Sp) (x : Sp) (o : Origin)
-    (hpre : ∀ p ∈ pre, eval E p = .val) (hx : eval E x = .exc o) :
-    evalSeq E (pre ++ x :: post) = .exc o := by
-  induction pre with
-  | nil => simp [evalSeq, hx]
-  | cons p r ih =>
-    have hp : eval E p = .val := hpre p (by simp)
-    simp only [List.cons_append, evalSeq, hp]
-    exact ih (fun q hq => hpre q (by simp [hq]))
-
-theorem evalCoal_absorb (E : EvalEnv) (pre post : List Sp) (x : Sp) (sk : List String) (d : Bool)
-    (hpre : ∀ p ∈ pre, ∃ o, eval E p = .exc o ∧ E.caught o sk = true) :
-    evalCoal E (pre ++ x :: post) sk d = evalCoal E (x :: post) sk d := by
-  induction pre with
+theorem dropHead_not_mem {h : String} {l : List String} (hn : h ∉ l) : dropHead h l = l := by
+  cases l with
   | nil => rfl
-  | cons p r ih =>
-    obtain ⟨o, ho, hc⟩ := hpre p (by simp)
-    simp only [List.cons_append, evalCoal, ho, hc, if_true]
-    exact ih (fun q hq => hpre q (by simp [hq]))
+  | cons a t =>
+    have : a ≠ h := fun e => hn (e ▸ List.mem_cons_self)
+    exact dropHead_cons_ne t this
+
+/-- a sublist of `a :: A` (nodup): after dropping a leading `a` it is a sublist of `A`, and `a` is
+    not in its tail -/
+theorem sublist_dropHead {a : String} {A l : List String} (hnd : (a :: A).Nodup) (hs : l.Sublist (a :: A)) :
+    (dropHead a l).Sublist A ∧ a ∉ l.tail := by
+  have haA : a ∉ A := (List.nodup_cons.mp hnd).1
+  cases hs with
+  | cons _ h =>
+    -- l <+ A
+    have hal : a ∉ l := fun hm => haA (h.subset hm)
+    refine ⟨by rw [dropHead_not_mem hal]; exact h, fun hm => hal (List.mem_of_mem_tail hm)⟩
+  | cons_cons _ h =>
+    -- l = a :: l', l' <+ A
+    rename_i l'
+    refine ⟨by rw [dropHead_cons_self]; exact h, ?_⟩
+    intro hm
+    exact haA (h.subset hm)
+
+/-- **a dominant list**: when every other list is a sublist of the (duplicate-free) first one,
+    the merge is the first list -/
+theorem c3merge_dominant : ∀ (A : List String) (ls : List (List String)) (n : Nat),
+    A.Nodup → (∀ l ∈ ls, l.Sublist A) → A.length ≤ n → c3merge n (A :: ls) = some A := by
+  intro A
+  induction A with
+  | nil =>
+    intro ls n _ hs _
+    have hall : (([] : List String) :: ls).all List.isEmpty = true := by
+      simp only [List.all_cons, List.isEmpty_nil, Bool.true_and, List.all_eq_true]
+      intro l hl
+      have := hs l hl
+      cases l with
+      | nil => rfl
+      | cons a t => cases this
+    cases n <;> simp [c3merge, hall]
+  | cons a A ih =>
+    intro ls n hnd hs hn
+    cases n with
+    | zero => simp at hn
+    | succ n =>
+      have hne : ((a :: A) :: ls).all List.isEmpty = false := by simp
+      have hfree : inTail ((a :: A) :: ls) a = false := by
+        simp only [inTail, List.any_cons, List.tail_cons, Bool.or_eq_false_iff, List.any_eq_false]
+        refine ⟨?_, ?_⟩
+        · simpa using (List.nodup_cons.mp hnd).1
+        · intro l hl
+          have := (sublist_dropHead hnd (hs l hl)).2
+          simpa using this
+      rw [c3merge_step hne (pickHead_free hfree)]
+      simp only [List.map_cons, dropHead_cons_self]
+      rw [ih (ls.map (dropHead a)) n (List.nodup_cons.mp hnd).2 ?_ (by simpa using hn)]
+      · rfl
+      · intro l hl
+        obtain ⟨l0, hl0, rfl⟩ := List.mem_map.mp hl
+        exact (sublist_dropHead hnd (hs l0 hl0)).1
 
 end Glom.C04
 
 namespace Glom.C04
 
-/-! ### contexts made of plain frames (tuple / dict / list / Spec), of any depth -/
+/-! ### the MRO of the wrapper class -/
 
-inductive Ctx where
-  | hole
-  | tup (pre : List Sp) (c : Ctx) (post : List Sp)
-  | dct (pre : List Sp) (c : Ctx) (post : List Sp)
-  | lst (c : Ctx)
-  | frame (c : Ctx)
-  | first (c : Ctx)
+/-- a class name that is none of GlomError's own MRO -/
+def Free (x : String) : Prop := x ≠ "GlomError" ∧ x ≠ "Exception" ∧ x ≠ "BaseException" ∧ x ≠ "object"
 
-def Ctx.plug : Ctx → Sp → Sp
-  | .hole, x => x
-  | .tup pre c post, x => .tup (pre ++ c.plug x :: post)
-  | .dct pre c post, x => .dct (pre ++ c.plug x :: post)
-  | .lst c, x => .lst (c.plug x)
-  | .frame c, x => .frame (c.plug x)
-  | .first c, x => .first (c.plug x)
+theorem inTail_three (a b c : List String) (h : String) :
+    inTail [a, b, c] h = (a.tail.contains h || b.tail.contains h || c.tail.contains h) := by
+  simp [inTail, Bool.or_assoc]
 
-def Ctx.depth : Ctx → Nat
-  | .hole => 0
-  | .tup _ c _ | .dct _ c _ | .lst c | .frame c | .first c => c.depth + 1
+theorem free_not_glomTail {x : String} (hx : Free x) : glomMro.tail.contains x = false := by
+  obtain ⟨_, h2, h3, h4⟩ := hx
+  simp [glomMro, h2, h3, h4]
 
-/-- everything evaluated before the hole returns; a `First(key)` frame is not crossed by a
-    StopIteration (`next(filter(key, …))` takes it for the end of the iteration) -/
-def Ctx.PreOk (E : EvalEnv) (o : Origin) : Ctx → Prop
-  | .hole => True
-  | .tup pre c _ | .dct pre c _ => (∀ p ∈ pre, eval E p = .val) ∧ c.PreOk E o
-  | .lst c | .frame c => c.PreOk E o
-  | .first c => E.caught o ["StopIteration"] = false ∧ c.PreOk E o
+/-- phase B–D of the merge: the classes before `Exception` are taken one by one, then GlomError
+    (blocked until `Exception` heads the first list), then the rest of the exception's MRO -/
+theorem c3merge_insert : ∀ (pre rest : List String) (n : Nat),
+    (pre ++ "Exception" :: rest).Nodup → (∀ x ∈ pre, Free x) → "GlomError" ∉ rest →
+    ["BaseException", "object"].Sublist rest → pre.length + rest.length + 3 ≤ n →
+    c3merge n [pre ++ "Exception" :: rest, glomMro, ["GlomError"]]
+      = some (pre ++ "GlomError" :: "Exception" :: rest) := by
+  intro pre
+  induction pre with
+  | nil =>
+    intro rest n hnd _ hg hsub hn
+    cases n with
+    | zero => omega
+    | succ n =>
+      simp only [List.nil_append] at hnd ⊢
+      have hne : ([("Exception" :: rest), glomMro, ["GlomError"]].all List.isEmpty) = false := by simp
+      have hblocked : inTail [("Exception" :: rest), glomMro, ["GlomError"]] "Exception" = true := by
+        rw [inTail_three]; simp [glomMro]
+      have hfree : inTail [("Exception" :: rest), glomMro, ["GlomError"]] "GlomError" = false := by
+        rw [inTail_three]
+        simp [glomMro, hg]
+      have hp : pickHead [("Exception" :: rest), glomMro, ["GlomError"]]
+          [("Exception" :: rest), glomMro, ["GlomError"]] = some "GlomError" := by
+        rw [pickHead_blocked hblocked]
+        show pickHead _ (("GlomError" :: ["Exception", "BaseException", "object"]) :: [["GlomError"]]) = _
+        exact pickHead_free hfree
+      rw [c3merge_step hne hp]
+      have hd1 : dropHead "GlomError" ("Exception" :: rest) = "Exception" :: rest :=
+        dropHead_cons_ne rest (by decide)
+      have hd2 : dropHead "GlomError" glomMro = ["Exception", "BaseException", "object"] := by
+        simp [glomMro, dropHead]
+      have hd3 : dropHead "GlomError" ["GlomError"] = [] := by simp [dropHead]
+      simp only [List.map_cons, List.map_nil, hd1, hd2, hd3]
+      rw [c3merge_dominant ("Exception" :: rest) [["Exception", "BaseException", "object"], []] n hnd ?_
+        (by simp only [List.length_cons]; omega)]
+      · rfl
+      · intro l hl
+        simp only [List.mem_cons, List.not_mem_nil, or_false] at hl
+        rcases hl with rfl | rfl
+        · exact List.Sublist.cons_cons _ hsub
+        · exact List.nil_sublist _
+  | cons p pre ih =>
+    intro rest n hnd hfreeAll hg hsub hn
+    cases n with
+    | zero => simp at hn
+    | succ n =>
+      have hp : Free p := hfreeAll p List.mem_cons_self
+      simp only [List.cons_append] at hnd ⊢
+      have hne : ([(p :: (pre ++ "Exception" :: rest)), glomMro, ["GlomError"]].all List.isEmpty) = false := by
+        simp
+      have hfree : inTail [(p :: (pre ++ "Exception" :: rest)), glomMro, ["GlomError"]] p = false := by
+        rw [inTail_three]
+        have h1 : (pre ++ "Exception" :: rest).contains p = false := by
+          simpa using (List.nodup_cons.mp hnd).1
+        simp only [List.tail_cons, h1, free_not_glomTail hp, Bool.false_or]
+        simp
+      rw [c3merge_step hne (pickHead_free hfree)]
+      have hd2 : dropHead p glomMro = glomMro := by
+        simp only [glomMro]; exact dropHead_cons_ne _ (Ne.symm hp.1)
+      have hd3 : dropHead p ["GlomError"] = ["GlomError"] := dropHead_cons_ne _ (Ne.symm hp.1)
+      simp only [List.map_cons, List.map_nil, dropHead_cons_self, hd2, hd3]
+      rw [ih rest n (List.nodup_cons.mp hnd).2 (fun x hx => hfreeAll x (List.mem_cons_of_mem _ hx)) hg hsub
+        (by simp only [List.length_cons] at hn; omega)]
+      rfl
 
-theorem plug_propagates (E : EvalEnv) (c : Ctx) (x : Sp) (o : Origin)
-    (hpre : c.PreOk E o) (hx : eval E x = .exc o) : eval E (c.plug x) = .exc o := by
-  induction c with
-  | hole => exact hx
-  | tup pre c post ih =>
-    simp only [Ctx.plug, eval, frameG_id]
-    exact evalSeq_append_exc E pre post _ o hpre.1 (ih hpre.2)
-  | dct pre c post ih =>
-    simp only [Ctx.plug, eval, frameG_id]
-    exact evalSeq_append_exc E pre post _ o hpre.1 (ih hpre.2)
-  | lst c ih =>
-    simp only [Ctx.plug, eval, frameG_id, ih hpre]
-  | frame c ih =>
-    simp only [Ctx.plug, eval, frameG_id, ih hpre]
-  | first c ih =>
-    simp only [Ctx.plug, eval, frameG_id, ih hpre.2, hpre.1]
+/-- **the wrapper's MRO exists** for every consistent MRO of an `Exception` subclass that is not a
+    GlomError: the classes up to `Exception`, GlomError, then `Exception` and the rest -/
+theorem wrapMro_exc (c : String) (pre rest : List String)
+    (hnd : (c :: pre ++ "Exception" :: rest).Nodup)
+    (hfree : ∀ x ∈ c :: pre, Free x) (hg : "GlomError" ∉ rest)
+    (hsub : ["BaseException", "object"].Sublist rest) :
+    wrapMro (c :: pre ++ "Exception" :: rest) = some (c :: pre ++ "GlomError" :: "Exception" :: rest) := by
+  unfold wrapMro
+  have hc : Free c := hfree c List.mem_cons_self
+  simp only [List.cons_append, List.headD_cons, List.length_cons]
+  have hne : ([(c :: (pre ++ "Exception" :: rest)), glomMro, [c, "GlomError"]].all List.isEmpty) = false := by
     simp
+  have hfr : inTail [(c :: (pre ++ "Exception" :: rest)), glomMro, [c, "GlomError"]] c = false := by
+    rw [inTail_three]
+    have h1 : (pre ++ "Exception" :: rest).contains c = false := by
+      simpa using (List.nodup_cons.mp hnd).1
+    simp only [List.tail_cons, h1, free_not_glomTail hc, Bool.false_or]
+    simp [hc.1]
+  rw [c3merge_step hne (pickHead_free hfr)]
+  have hd2 : dropHead c glomMro = glomMro := by
+    simp only [glomMro]; exact dropHead_cons_ne _ (Ne.symm hc.1)
+  simp only [List.map_cons, List.map_nil, dropHead_cons_self, hd2]
+  rw [c3merge_insert pre rest _ (List.nodup_cons.mp hnd).2
+    (fun x hx => hfree x (List.mem_cons_of_mem _ hx)) hg hsub (by simp only [List.length_append, List.length_cons]; omega)]
+  rfl
 
-/-! ### the only exception objects an evaluation can end with -/
+/-- **a wrapped error wrapped again**: when GlomError's MRO is already part of the class's MRO the
+    merge changes nothing -/
+theorem wrapMro_of_glomerror (c : String) (t : List String)
+    (hnd : (c :: t).Nodup) (hc : c ≠ "GlomError") (hsub : glomMro.Sublist t) :
+    wrapMro (c :: t) = some (c :: t) := by
+  unfold wrapMro
+  simp only [List.headD_cons, List.length_cons]
+  have hct : c ∉ t := (List.nodup_cons.mp hnd).1
+  have hcg : c ∉ glomMro := fun h => hct (hsub.subset h)
+  have hne : ([(c :: t), glomMro, [c, "GlomError"]].all List.isEmpty) = false := by simp
+  have hfr : inTail [(c :: t), glomMro, [c, "GlomError"]] c = false := by
+    rw [inTail_three]
+    have h1 : t.contains c = false := by simpa using hct
+    have h2 : glomMro.tail.contains c = false := by
+      have : c ∉ glomMro.tail := fun h => hcg (List.mem_of_mem_tail h)
+      simpa using this
+    simp only [List.tail_cons, h1, h2, Bool.false_or]
+    simp [hc]
+  rw [c3merge_step hne (pickHead_free hfr)]
+  simp only [List.map_cons, List.map_nil, dropHead_cons_self, dropHead_not_mem hcg]
+  rw [c3merge_dominant t [glomMro, ["GlomError"]] _ (List.nodup_cons.mp hnd).2 ?_ (by omega)]
+  · rfl
+  · intro l hl
+    simp only [List.mem_cons, List.not_mem_nil, or_false] at hl
+    rcases hl with rfl | rfl
+    · exact hsub
+    · exact (List.singleton_sublist.mpr (hsub.subset (by simp [glomMro])))
 
-mutual
-def hasFault : Sp → Bool
-  | .ok | .badPath | .badMatch => false
-  | .fault => true
-  | .tup xs | .dct xs => hasFaultL xs
-  | .lst x | .frame x | .first x => hasFault x
-  | .coal xs _ _ => hasFaultL xs
-def hasFaultL : List Sp → Bool
-  | [] => false
-  | x :: r => hasFault x || hasFaultL r
-end
-
-def internalClasses : List String := ["PathAccessError", "TypeMatchError", "CoalesceError"]
-
-def OriginOk (s : Bool) (o : Outc) : Prop :=
-  match o with
-  | .val => True
-  | .exc .injected => s = true
-  | .exc (.internal c) => c ∈ internalClasses
-
-theorem eval_origin (E : EvalEnv) :
-    (∀ s, OriginOk (hasFault s) (eval E s)) ∧
-    (∀ xs sk d, OriginOk (hasFaultL xs) (evalCoal E xs sk d)) ∧
-    (∀ xs, OriginOk (hasFaultL xs) (evalSeq E xs)) := by
-  apply eval.mutual_induct E
-    (fun s => OriginOk (hasFault s) (eval E s))
-    (fun xs sk d => OriginOk (hasFaultL xs) (evalCoal E xs sk d))
-    (fun xs => OriginOk (hasFaultL xs) (evalSeq E xs))
-  case case1 => simp [eval, frameG_id, OriginOk]
-  case case2 => simp [eval, frameG_id, OriginOk, hasFault]
-  case case3 => simp [eval, frameG_id, OriginOk, internalClasses]
-  case case4 => simp [eval, frameG_id, OriginOk, internalClasses]
-  case case5 => intro a ih; simpa [eval, frameG_id, hasFault] using ih
-  case case6 => intro a ih; simpa [eval, frameG_id, hasFault] using ih
-  case case7 =>
-    intro a ih
-    simp only [eval, frameG_id, hasFault]
-    cases h : eval E a with
-    | val => simpa [h] using ih
-    | exc o => simpa [h] using ih
-  case case8 => intro a ih; simpa [eval, frameG_id, hasFault] using ih
-  case case9 =>
-    intro a ih
-    simp only [eval, frameG_id, hasFault]
-    cases h : eval E a with
-    | val => simp [OriginOk]
-    | exc o =>
-      rw [h] at ih
-      by_cases hc : E.caught o ["StopIteration"] = true
-      · simp [hc, OriginOk]
-      · simpa [hc] using ih
-  case case10 => intro a sk d ih; simpa [eval, frameG_id, hasFault] using ih
-  case case11 => intro x; simp [evalCoal, OriginOk]
-  case case12 => intro x d hd; simp [evalCoal, hd, OriginOk, internalClasses]
-  case case13 => intro x r sk d hx _; simp [evalCoal, hx, OriginOk]
-  case case14 =>
-    intro x r sk d a hx hc _ ih
-    simp only [evalCoal, hx, hc, if_true]
-    revert ih
-    cases evalCoal E r sk d with
-    | val => simp [OriginOk]
-    | exc o => cases o <;> simp [OriginOk, hasFaultL] <;> intro h <;> simp [h]
-  case case15 =>
-    intro x r sk d a hx hc ih
-    simp only [evalCoal, hx, hc]
-    rw [hx] at ih
-    revert ih
-    cases a <;> simp [OriginOk, hasFaultL] <;> intro h <;> simp [h]
-  case case16 => simp [evalSeq, OriginOk]
-  case case17 =>
-    intro x r hx _ ih
-    simp only [evalSeq, hx]
-    revert ih
-    cases evalSeq E r with
-    | val => simp [OriginOk]
-    | exc o => cases o <;> simp [OriginOk, hasFaultL] <;> intro h <;> simp [h]
-  case case18 =>
-    intro x r a hx ih
-    simp only [evalSeq, hx]
-    rw [hx] at ih
-    revert ih
-    cases a <;> simp [OriginOk, hasFaultL] <;> intro h <;> simp [h]
+theorem insertGlom_free (pre rest : List String) (hfree : ∀ x ∈ pre, Free x) :
+    insertGlom (pre ++ "Exception" :: rest) = pre ++ "GlomError" :: "Exception" :: rest := by
+  induction pre with
+  | nil => simp [insertGlom]
+  | cons p pre ih =>
+    obtain ⟨h1, h2, h3, _⟩ := hfree p List.mem_cons_self
+    simp only [List.cons_append, insertGlom, beq_iff_eq, h1, h2, h3, if_false]
+    rw [ih (fun x hx => hfree x (List.mem_cons_of_mem _ hx))]
 
 end Glom.C04
